@@ -85,241 +85,16 @@ func NewStreamingBlockDecoder(data []byte) (*StreamingBlockDecoder, error) {
 // Note: The actual Block struct is created by calling the appropriate era-specific
 // decoder on the raw data. This function focuses on offset extraction.
 func (d *StreamingBlockDecoder) DecodeWithOffsets() (*BlockTransactionOffsets, error) {
-	// Decode block as array of RawMessage to get component boundaries
-	var blockArray []cbor.RawMessage
-	blockStart, blockLen, err := d.stream.Decode(&blockArray)
+	// ExtractTransactionOffsets is the single implementation of the offset
+	// walk: it reads every container header size from the bytes on the wire
+	// (non-minimal and indefinite-length headers included) and knows the
+	// Byron, Shelley+ and Dijkstra block layouts.
+	offsets, err := ExtractTransactionOffsets(d.data)
 	if err != nil {
 		return nil, fmt.Errorf("decode block array: %w", err)
 	}
-	_ = blockLen // Used for validation if needed
-
-	if len(blockArray) < 3 {
-		// Byron EBB or other minimal block format
-		// Return empty slice instead of nil to prevent nil pointer dereference
-		d.offsets.Transactions = []TransactionLocation{}
-		return d.offsets, nil
-	}
-
-	// Detect Byron-era blocks and handle them separately.
-	// Byron blocks have 3 elements: [header, body, extra]
-	if isByronBlock(blockArray) {
-		offsets, err := extractByronTransactionOffsets(d.data, blockArray)
-		if err != nil {
-			return nil, fmt.Errorf("extract Byron transaction offsets: %w", err)
-		}
-		d.offsets = offsets
-		return d.offsets, nil
-	}
-
-	// Shelley+ block layout: [header, tx_bodies[], witnesses[], metadata_map, invalid_txs[]]
-	arrayHeaderSize := cborArrayHeaderSize(len(blockArray))
-
-	// Track positions as we walk through the block
-	// #nosec G115 -- Cardano block components are well under 4GiB
-	pos := uint32(blockStart) + uint32(arrayHeaderSize)
-
-	// Skip header (blockArray[0])
-	// #nosec G115 -- block header <<4GiB
-	headerLen := uint32(len(blockArray[0]))
-	pos += headerLen
-
-	// Extract transaction bodies array (blockArray[1])
-	txBodiesOffset := pos
-	// #nosec G115 -- tx bodies <<4GiB
-	txBodiesLen := uint32(len(blockArray[1]))
-
-	// Extract witness sets array (blockArray[2])
-	witnessesOffset := txBodiesOffset + txBodiesLen
-	// #nosec G115 -- witnesses <<4GiB
-	witnessesLen := uint32(len(blockArray[2]))
-
-	// Extract metadata map offset (blockArray[3] if present)
-	var metadataOffset uint32
-	if len(blockArray) > 3 {
-		metadataOffset = witnessesOffset + witnessesLen
-	}
-
-	// Parse transaction bodies to get individual positions
-	var txBodiesRaw []cbor.RawMessage
-	if _, err := cbor.Decode([]byte(blockArray[1]), &txBodiesRaw); err != nil {
-		return nil, fmt.Errorf("decode transaction bodies: %w", err)
-	}
-
-	// Parse witness sets
-	var witnessesRaw []cbor.RawMessage
-	if _, err := cbor.Decode([]byte(blockArray[2]), &witnessesRaw); err != nil {
-		return nil, fmt.Errorf("decode witness sets: %w", err)
-	}
-
-	// Validate that transaction bodies and witness sets have matching lengths
-	if len(txBodiesRaw) != len(witnessesRaw) {
-		return nil, fmt.Errorf(
-			"mismatched transaction bodies (%d) and witness sets (%d)",
-			len(txBodiesRaw),
-			len(witnessesRaw),
-		)
-	}
-
-	// Parse metadata map for per-transaction metadata positions
-	metadataByTxIdx := make(map[uint32]struct {
-		offset uint32
-		length uint32
-	})
-	if len(blockArray) > 3 && len(blockArray[3]) > 1 {
-		_ = extractMetadataOffsets(
-			[]byte(blockArray[3]),
-			metadataOffset,
-			metadataByTxIdx,
-		)
-	}
-
-	// Allocate transaction locations
-	d.offsets.Transactions = make([]TransactionLocation, len(txBodiesRaw))
-
-	// Calculate individual transaction body offsets
-	bodiesArrayHeader := uint32(cborArrayHeaderSize(len(txBodiesRaw)))
-	bodyPos := txBodiesOffset + bodiesArrayHeader
-
-	for i, rawBody := range txBodiesRaw {
-		// #nosec G115 -- tx body <<4GiB
-		bodyLen := uint32(len(rawBody))
-		d.offsets.Transactions[i].Body = ByteRange{
-			Offset: bodyPos,
-			Length: bodyLen,
-		}
-
-		// Extract output offsets from this transaction body
-		d.extractOutputOffsets(i, []byte(rawBody), bodyPos)
-
-		bodyPos += bodyLen
-	}
-
-	// Calculate individual witness set offsets
-	witnessArrayHeader := uint32(cborArrayHeaderSize(len(witnessesRaw)))
-	witnessPos := witnessesOffset + witnessArrayHeader
-
-	for i, rawWitness := range witnessesRaw {
-		// #nosec G115 -- witness set <<4GiB
-		witnessLen := uint32(len(rawWitness))
-		if i < len(d.offsets.Transactions) {
-			d.offsets.Transactions[i].Witness = ByteRange{
-				Offset: witnessPos,
-				Length: witnessLen,
-			}
-
-			// Extract datum, redeemer, and script offsets
-			extractWitnessComponentOffsets(
-				[]byte(rawWitness),
-				witnessPos,
-				&d.offsets.Transactions[i],
-			)
-		}
-		witnessPos += witnessLen
-	}
-
-	// Assign metadata offsets
-	for i := range d.offsets.Transactions {
-		// #nosec G115 -- tx index <<4 billion
-		if meta, ok := metadataByTxIdx[uint32(i)]; ok {
-			d.offsets.Transactions[i].Metadata = ByteRange{
-				Offset: meta.offset,
-				Length: meta.length,
-			}
-		}
-	}
-
+	d.offsets = offsets
 	return d.offsets, nil
-}
-
-// extractOutputOffsets parses a transaction body to find output CBOR positions.
-// This uses streaming decode to track positions of each output within the body.
-func (d *StreamingBlockDecoder) extractOutputOffsets(
-	txIndex int,
-	bodyData []byte,
-	bodyOffset uint32,
-) {
-	// Transaction body is a CBOR map with numeric keys
-	// Key 1 contains the outputs array
-	// We need to find the outputs array and get positions of each output
-
-	if len(bodyData) < 2 {
-		return
-	}
-
-	// Parse the transaction body map
-	count, headerSize, indefinite := cborMapInfo(bodyData)
-	if count < 0 && !indefinite {
-		return
-	}
-
-	// Create a stream decoder for the body content (after map header)
-	bodyStream, err := cbor.NewStreamDecoder(bodyData[headerSize:])
-	if err != nil {
-		return
-	}
-
-	// Scan through map key-value pairs looking for key 1 (outputs)
-	for i := 0; indefinite || i < count; i++ {
-		// Check for break byte in indefinite maps
-		if indefinite {
-			pos := bodyStream.Position()
-			checkPos := int(headerSize) + pos
-			if checkPos >= len(bodyData) || bodyData[checkPos] == 0xff {
-				break
-			}
-		}
-
-		// Decode map key
-		var key uint64
-		keyStart, keyLen, err := bodyStream.Decode(&key)
-		if err != nil {
-			return
-		}
-		_ = keyStart
-		_ = keyLen
-
-		if key == 1 {
-			// Found the outputs array - decode it with position tracking
-			valueStart := bodyStream.Position()
-
-			// Decode outputs as array of RawMessage
-			var outputsRaw []cbor.RawMessage
-			_, _, err := bodyStream.Decode(&outputsRaw)
-			if err != nil {
-				return
-			}
-
-			// Calculate the absolute offset of the outputs array
-			// #nosec G115 -- Cardano tx body offsets are well under 4GiB
-			outputsArrayOffset := bodyOffset + uint32(headerSize) + uint32(valueStart)
-			outputsArrayHeader := uint32(cborArrayHeaderSize(len(outputsRaw)))
-
-			// Track position within outputs array
-			outputPos := outputsArrayOffset + outputsArrayHeader
-
-			// Record each output's position
-			if d.offsets.Transactions[txIndex].Outputs == nil {
-				d.offsets.Transactions[txIndex].Outputs = make([]ByteRange, len(outputsRaw))
-			}
-
-			for j, rawOutput := range outputsRaw {
-				// #nosec G115 -- Cardano outputs are <<4GiB
-				outputLen := uint32(len(rawOutput))
-				d.offsets.Transactions[txIndex].Outputs[j] = ByteRange{
-					Offset: outputPos,
-					Length: outputLen,
-				}
-				outputPos += outputLen
-			}
-
-			return // Found outputs, done with this body
-		}
-
-		// Skip the value for this key
-		if _, _, err := bodyStream.Skip(); err != nil {
-			return
-		}
-	}
 }
 
 // DecodeBlockWithOffsets decodes a block and extracts CBOR offsets.
